@@ -573,11 +573,13 @@ int cmd_run(Options const& opt)
     std::vector<Cand> cands;
     long mismatches = 0;
     long other_property_violations = 0;
+    std::uint64_t aggregate_hash = 0;  // order independent: sum of mix(index, hash)
 
     auto handle_result = [&](long idx, json const& j) {
         RunResult r = result_from_json(j);
         evaluations += r.weight;
         ++plans_run;
+        aggregate_hash += mix64(mix64(static_cast<std::uint64_t>(idx) + 1) ^ r.hash);
         if (r.nontrivial)
             shapes.insert(r.shape);
         for (auto x : r.extra_shapes)
@@ -873,6 +875,11 @@ int cmd_run(Options const& opt)
         cov["oracles"] = desc["oracles"];
     if (opt.repeat > 1)
         cov["determinism_check"] = {{"plans_run_twice", evaluations}, {"mismatches", mismatches}};
+    {
+        char buf[32];
+        std::snprintf(buf, sizeof(buf), "%016llx", static_cast<unsigned long long>(aggregate_hash));
+        cov["aggregate_history_hash"] = buf;
+    }
     cov["violations_of_other_properties_seen"] = other_property_violations;
     cov["known_findings"] = known_lines;
     cov["reported"] = reported;
